@@ -15,9 +15,14 @@ def sendCount : List Act → Nat
 
 /-- the conservation invariant holds after every fault-free allowed run with at most 100 messages (the sent queue's capacity) -/
 theorem tokInv_run (accts : List Acct) (groups : List (Nat × List Acct)) (hw : WFConfig accts groups)
+    (hnd : ∀ g ∈ groups, g.2.Nodup)
     (acts : List Act) (ha : AllowedRun (initSys accts groups) acts = true) (hf : NoFault acts = true) (hn : sendCount acts ≤ 100) :
     tokInv (run (initSys accts groups) acts) = true := by
   sorry
+
+theorem tokInv_conserved {s : Sys} (h : tokInv s = true) : conserved s = true := by
+  simp only [tokInv, Bool.and_eq_true] at h
+  exact h.1.1.1.1.1.1.1.1.1.1
 
 /-- nothing can be stuck: when all queues are empty, no continuation is waiting and nothing is parked -/
 theorem quiescent_settled (s : Sys) (hi : tokInv s = true) (hq : quiescent s = true) : settled s = true := by
@@ -31,9 +36,16 @@ theorem settled_exactly_once (s : Sys) (hi : tokInv s = true) (hs : settled s = 
         e.1 == n.id && e.2.2.2 == RType.delivery && (e.2.2.1 == some r || (e.2.2.1.isNone && e.2.1 == Dest.user r)))).length = 1 := by
   sorry
 
+/-- the queues of a run from the initial state hold each account at most once -/
+theorem queueKeys_run (accts : List Acct) (groups : List (Nat × List Acct)) (acts : List Act) :
+    let s := run (initSys accts groups) acts
+    (s.inbound.map Prod.fst).Nodup ∧ (s.outbound.map Prod.fst).Nodup := by
+  sorry
+
 /-- a run that is not settled can always go on: some server action is enabled (so a fair scheduler reaches a settled state
-    or runs for ever; together with `progress_measure` below it reaches one) -/
-theorem not_quiescent_enabled (s : Sys) (h : quiescent s = false) :
+    or runs for ever).  `hk`: without it a shadowed duplicate key with a non-empty queue would be a counterexample. -/
+theorem not_quiescent_enabled (s : Sys) (hk : (s.inbound.map Prod.fst).Nodup ∧ (s.outbound.map Prod.fst).Nodup)
+    (h : quiescent s = false) :
     ∃ a, Allowed s (.process a) = true ∨ Allowed s (.deliver a .none) = true := by
   sorry
 
